@@ -58,6 +58,8 @@ def scaled_docs(rnd, tier):
                         mk(2, "loop", form="while", cond={"t": "lt", "x": "b", "v": cnt},
                            ch=[mk(3, "leaf"), mk(4, "var", asg=[["b", {"t": "inc", "x": "b", "v": 0}]])])],
                        what=f"loop:while{cnt}"))
+    for cnt in (999, 1000, 1001):
+        out.append(rec([mk(1, "loop", form="for", cnt=cnt, lv="a", start=1, step=1, ch=[mk(2, "leaf", rd="a")])], what=f"loop:for{cnt}"))
     # variable length around the default limit (string mode)
     for ln in (1023, 1024, 1025):
         out.append(rec([mk(1, "var", asg=[["a", {"t": "lit", "x": "-", "v": ln}]]), mk(2, "leaf", rd="a")],
@@ -78,7 +80,7 @@ def run(rep, tier, seed):
     ]
     big = tier == "thorough"
     fams = [("depth", dict(MaxNodes=5 if big else 4)), ("flat", dict(MaxNodes=4 if big else 3)),
-            ("loop", dict(MaxNodes=3)), ("var", dict(MaxNodes=3))]
+            ("loop", dict(MaxNodes=3 if big else 2)), ("var", dict(MaxNodes=3))]
     cmp = interp.standard_compare()
     for fam, over in fams:
         r = interp.model_check_family(rep, fam, tier, **over)
